@@ -305,8 +305,8 @@ fn run_c42(ctx: &mut Ctx) {
         .into();
     ctx.assume("only the DFIR half of C42 is served here; the Hydro half belongs to engine E5");
     ctx.floor = 200;
-    ctx.check("in-process-x3", if thorough { 12_000 } else { 600 }, gen::tape(Profile::Accept, 14), c42::run_inproc);
-    ctx.check("cross-process-x3", if thorough { 3_000 } else { 150 }, gen::tape(Profile::Accept, 14), c42::run_xproc);
+    ctx.check("in-process-x3", if thorough { 8_000 } else { 600 }, gen::tape(Profile::Accept, 14), c42::run_inproc);
+    ctx.check("cross-process-x3", if thorough { 1_500 } else { 150 }, gen::tape(Profile::Accept, 14), c42::run_xproc);
     if c42::INFRA_FAIL.load(std::sync::atomic::Ordering::SeqCst) {
         ctx.inconclusive("a --child process could not be spawned or died");
     }
